@@ -268,7 +268,7 @@ pub const C36: Check = Check {
     id: "C36",
     level: "exploration",
     rule: "per-client metrics on; (a) real TCP clients bound to 127.0.0.1..127.0.0.40 connect concurrently to four RTR \
-           listeners of the real rtr_listener (each listener task registers addresses concurrently), hook delays inside \
+           listeners of the real rtr_listener (each listener task registers addresses concurrently; up to four further clients have their connection setup fail and are closed at once), hook delays inside \
            the address registry (before taking the writer lock, before publishing the new list); after every client got \
            its Reset Query answered: clients() must be sorted, hold exactly one entry per connected address, and each \
            entry's open-connection count equals the connections that address holds; after all connections were closed and \
@@ -366,7 +366,16 @@ fn run_c36(ctx: &mut Ctx, rep: &mut Report) {
             let ip: IpAddr = Ipv4Addr::new(127, 0, 0, 1 + ((i + rng.usize(2) * 7) % naddr) as u8).into();
             (ip, listeners[i % listeners.len()])
         }).collect();
-        ctx.begin_case(&json!({"leg": "listener", "clients": nclients, "addresses": naddr}));
+        // a few more clients whose connection setup fails (fault hook keyed by their source addresses): they are closed
+        // at once and must not leave an open-connection count behind
+        hooks.clear_detail_faults();
+        hooks.add_detail_fault("rtr.setup", "127.0.0.25", 1);
+        let nfail = rng.usize(5);
+        let mut plan = plan;
+        for i in 0..nfail { plan.push((Ipv4Addr::new(127, 0, 0, 250 + (i % 3) as u8).into(), listeners[i % listeners.len()])); }
+        // spread them among the others
+        for i in (1..plan.len()).rev() { let j = rng.usize(i + 1); plan.swap(i, j); }
+        ctx.begin_case(&json!({"leg": "listener", "clients": nclients, "addresses": naddr, "failing_setups": nfail}));
         let results = rt.block_on(async {
             let mut set = Vec::new();
             for (ip, l) in plan.iter().cloned() {
@@ -381,7 +390,9 @@ fn run_c36(ctx: &mut Ctx, rep: &mut Report) {
         let mut clients = Vec::new();
         let mut ok = true;
         for (ip, r) in results {
+            let failing = matches!(ip, IpAddr::V4(a) if a.octets()[3] >= 250);
             match r {
+                Ok(None) if failing => { rep.count("failed_setups_in_listener_leg", 1); }
                 Ok(Some(c)) => { *expect.entry(ip).or_insert(0usize) += 1; clients.push(c); }
                 other => { ok = false; rep.inconclusive(format!("listener leg: client from {ip} not served: {:?}", other.map(|_| ()))); }
             }
@@ -402,6 +413,7 @@ fn run_c36(ctx: &mut Ctx, rep: &mut Report) {
         }
         for v in expect.values_mut() { *v = 0 }
         check_clients(&srv.rtr_metrics, &expect, "listener/all-closed", rep, replay);
+        hooks.clear_detail_faults();
         let ev = hooks.take_events();
         let slow = ev.iter().filter(|e| e.name == "rtrmetrics.before_lock").count();
         rep.class(format!("listener|addrs{}|clients{}|slowpath{}", naddr.min(8), nclients / 10, slow.min(10)));
